@@ -143,7 +143,7 @@ fn run_wired(w: &World, req: &Request, wi: &Wiring, tag: usize) -> Observed {
         Src::StdinDribble => {
             // a small first piece, then a pause longer than the key derivation the tool performs before its
             // first read (size 0 = pause), so that the first read really is short; then irregular pieces
-            let mut sizes: Vec<usize> = vec![1 + req.input.len() % 1000, 0];
+            let mut sizes: Vec<usize> = vec![(1 + req.input.len() % 1000).min(req.input.len() / 2).max(1), 0];
             sizes.extend((0..64).map(|i| 1 + (i * 7919 + req.input.len()) % 50_000));
             cmd.stdin(Stdin::Dribble(req.input.clone(), sizes))
         }
@@ -401,9 +401,6 @@ pub fn run(ctx: &Ctx) {
         if matches!(req.kind, Kind::PassEncrypt | Kind::PassDecrypt) {
             // no keyring dimension in password mode
             ws.retain(|w| !w.keyring_env);
-        }
-        if !full && req.input.len() > 100_000 {
-            ws.truncate(ws.len() / 2 + 1);
         }
         for wi in ws {
             jobs.push((ri, wi));
